@@ -1,8 +1,9 @@
 /-
   PygModel.PerDict — model of `pyg_base._perdictable`: `_item` (lines 63-107), `join` (110-211),
   `_join_dictable_with_defaults` (19-61) and `perdictable._value_output` (297-342) for a function
-  without `.output`, `renames = None`, `if_none = False`, `output_is_input = True`,
-  `include_inputs = False`.  Built on the `join` / `xor` of PygModel/Join.lean (`d1 * d2`, `d1 / d2`).
+  without `.output`, `if_none = False`, `output_is_input = True`, `include_inputs = False`;
+  `renames` = `None` or a dict parameter → column (`pdJoinR`, `perdictableR`: the renaming
+  `d[key] = d[renames[key]]` of lines 85-92 is a pass over the inputs before `join` proper).  Built on the `join` / `xor` of PygModel/Join.lean (`d1 * d2`, `d1 / d2`).
 
   The lifted function is abstract: `f : List Cell → Val` receives the values of its declared
   parameters; the model returns the result together with the *log* of calls of `f`, in call order.
@@ -238,5 +239,44 @@ def perdictable (f : List Cell → Val) (params on : List String) (defaults : Li
       match ds.select on with
       | .error e => some (.error e)
       | .ok keyCols => some (.ok (.table (keyCols.toV ++ [("data", values)]), log))
+
+/-! ### `renames` (a dict parameter → column name) -/
+
+/-- `d[key] = xs`: in place when `key` is a column, else appended -/
+def Table.setCol (t : Table) (k : String) (xs : List Cell) : Table :=
+  if t.cols.contains k then t.map fun c => if c.1 == k then (k, xs) else c else t ++ [(k, xs)]
+
+/-- lines 85-92 of `_item` for `renames` a dict: `d[key] = d[renames[key]]` when `key in renames`
+(`KeyError` when the table has no such column).  The assignment is made on the caller's table. -/
+def applyRename (d : Table) (key : String) (renames : List (String × String)) : Res Table :=
+  match renames.find? (·.1 == key) with
+  | none => .ok d
+  | some kr => match d.col? kr.2 with
+    | some xs => .ok (d.setCol key xs)
+    | none => .error .key
+
+def renameInput (renames : List (String × String)) (kv : String × PInput) : Res (String × PInput) :=
+  match kv.2 with
+  | .table d => (applyRename d kv.1 renames).map fun d' => (kv.1, .table d')
+  | .scalar c => .ok (kv.1, .scalar c)
+
+/-- `join(inputs, on, renames, defaults)`: the renaming assignments, then `join` as above (both stages
+only ever raise `KeyError`, so doing all the assignments first does not change the outcome) -/
+def pdJoinR (inputs : List (String × PInput)) (on : List String) (renames : List (String × String))
+    (defaults : List (String × Cell)) : Option (Res Table) :=
+  match inputs.mapM (renameInput renames) with
+  | .error e => some (.error e)
+  | .ok inputs' => pdJoin inputs' on defaults
+
+/-- `perdictable(f, on, renames, defaults)(**inputs)`; `expiry` is an input of `join` like the others
+(a table given as `data` comes back with the assigned column when no row exists: the assignment
+was made on the caller's object) -/
+def perdictableR (f : List Cell → Val) (params on : List String) (renames : List (String × String))
+    (defaults : List (String × Cell)) (inputs : List (String × PInput)) (expiry : PInput) (today : Int) :
+    Option (Res (PResult × List (List Cell))) :=
+  match inputs.mapM (renameInput renames), renameInput renames ("expiry", expiry) with
+  | .ok inputs', .ok e' => perdictable f params on defaults inputs' e'.2 today
+  | .error e, _ => some (.error e)
+  | _, .error e => some (.error e)
 
 end Pyg
